@@ -1153,7 +1153,7 @@ func c04Replay(pl json.RawMessage) (string, []core.Violation) {
 func init() {
 	core.Register(&core.PropSpec{
 		ID: "C04", Level: "model_checking",
-		Rule:     "configuration x input product with an interceptor-log model (also with a statement interceptor that dispatches to the public Parse...Statement methods itself instead of calling next(), on all token sequences <= 3 (4), the statement families and nesting chains; also on all byte strings <= 3 (4 thorough) over the 26-byte lexer alphabet, alone and after a well-formed prefix, under token interceptors; run on the built-in subset and, extended family, on the subset plus an infix operator registered at each level 1..12 with a prefix and a postfix operator, all token sequences <= 3 (4 thorough) over 10 lexemes in 4 frames, against the interceptor-free builder with the same registrations): configurations = token interceptor counts {1,2,8}, statement interceptor counts {1,2,3,8}, every sequence of pass-through/re-entrant expression interceptors of length <= 3 (4 thorough) plus 8-long ones, mixed sets, installed directly or through Install(plugin) (35 quick / 56 thorough; a reduced set of 4 re-entrance/order configurations on the largest universes); inputs = ALL token sequences <= 3 (4 thorough), valid or malformed, in space and LF layouts, every expression chain of depth <= 3 (as statement and as argument), statement families and nesting chains. Oracle per (input, configuration): tokens (lexer driven directly), tree dump with positions, Errors(), compact and pretty output identical to the interceptor-free run; each token interceptor entered exactly once per token request with Line/Column/CurrentChar on the first byte of the lexeme that request returns; statement/expression interceptor logs are complete runs 0..n-1 in installation order with one current token per run, properly nested; the step list of interceptor 0 is the same in every configuration; the entry token of a step is the leftmost token of the construct it returns; on error-free parses every statement of the tree and every operand outside the left spine was returned by exactly one step. states = distinct (input, mode) pairs, transitions = interceptor log events (token requests, statement and expression step entries/exits) checked against the log model",
+		Rule:     "configuration x input product with an interceptor-log model (also with a statement interceptor that dispatches to the public Parse...Statement methods itself instead of calling next(), on all token sequences <= 3 (4), the statement families and nesting chains; also on all byte strings <= 3 (4 thorough) over the 26-byte lexer alphabet, alone and after a well-formed prefix, under token interceptors; run on the built-in subset and, extended family, on the subset plus an infix operator registered at each level 1..12 with a prefix and a postfix operator, all token sequences <= 3 (4 thorough) over 10 lexemes in 4 frames, against the interceptor-free builder with the same registrations): configurations = token interceptor counts {1,2,8}, statement interceptor counts {1,2,3,8}, every sequence of pass-through/re-entrant expression interceptors of length <= 3 (4 thorough) plus 8-long ones, mixed sets, installed directly or through Install(plugin) (35 quick / 56 thorough; a reduced set of 4 re-entrance/order configurations on the largest universes); inputs = ALL token sequences <= 3 (4 thorough), valid or malformed, in space and LF layouts, every expression chain of depth <= 3 (as statement and as argument), statement families and nesting chains. Oracle per (input, configuration): tokens (lexer driven directly), tree dump with positions, Errors(), compact and pretty output identical to the interceptor-free run; each token interceptor entered exactly once per token request with Line/Column/CurrentChar on the first byte of the lexeme that request returns; statement/expression interceptor logs are complete runs 0..n-1 in installation order with one current token per run, properly nested; the step list of interceptor 0 is the same in every configuration; the entry token of a step is the leftmost token of the construct it returns; on error-free parses every statement of the tree and every operand outside the left spine was returned by exactly one step. states = distinct (input, mode) pairs, transitions = interceptor log events (token requests, statement and expression step entries/exits) checked against the log model Added (round 13): re-entrant expression interceptors of two more kinds in every configuration set - D parses the prefix through the exported building block of its token type (ParseIdentifier, Parse...Literal, ParseGroupedExpression, ParseArrayLiteral, ParseObjectLiteral, ParseFunctionExpression, ParseUnaryExpression), I asks the parser to continue more than once (ParseRemainingExpressionWithPrecedence at a level nothing binds at, then ParseRemainingExpression twice).",
 		Assume:   []string{"a re-entrant interceptor ends the chain (it does not call next), so interceptors installed after it are not entered", "whether the property name after '.' is a parse step of its own is not constrained"},
 		QuickSec: 400, ThorSec: 1800, Run: c04Run, Replay: c04Replay,
 		Evals: "config_runs", Nontriv: "valid_inputs", States: "inputs", Trans: "interceptor_log_events",
